@@ -53,7 +53,7 @@ type inst struct {
 }
 
 type world struct {
-	d         *daemon.OrderedDaemon
+	d         api
 	clk       atomic.Int64
 	mu        sync.Mutex
 	evs       []event
@@ -72,6 +72,38 @@ type world struct {
 	panics    []string     // "api: message" of recovered panics of daemon calls
 	ranRun    bool
 }
+
+// api is the surface of the daemon the scripts drive: an OrderedDaemon instance, or the package-level wrappers around the
+// package's default daemon (`mode default`; once per process, the default daemon cannot be renewed).
+type api interface {
+	BackgroundWorker(name string, handler daemon.WorkerFunc, order ...int) error
+	Start()
+	Run()
+	Shutdown()
+	ShutdownAndWait()
+	IsRunning() bool
+	IsStopped() bool
+	ContextStopped() context.Context
+	GetRunningBackgroundWorkers() []string
+}
+
+var _ api = (*daemon.OrderedDaemon)(nil)
+
+type pkgAPI struct{}
+
+func (pkgAPI) BackgroundWorker(name string, handler daemon.WorkerFunc, order ...int) error {
+	return daemon.BackgroundWorker(name, handler, order...)
+}
+func (pkgAPI) Start()                                { daemon.Start() }
+func (pkgAPI) Run()                                  { daemon.Run() }
+func (pkgAPI) Shutdown()                             { daemon.Shutdown() }
+func (pkgAPI) ShutdownAndWait()                      { daemon.ShutdownAndWait() }
+func (pkgAPI) IsRunning() bool                       { return daemon.IsRunning() }
+func (pkgAPI) IsStopped() bool                       { return daemon.IsStopped() }
+func (pkgAPI) ContextStopped() context.Context       { return daemon.ContextStopped() }
+func (pkgAPI) GetRunningBackgroundWorkers() []string { return daemon.GetRunningBackgroundWorkers() }
+
+var defaultUsed bool
 
 // ---- hook: park the armed BackgroundWorker call between its stopped check and the lock ----
 
@@ -102,8 +134,13 @@ func init() {
 	}
 }
 
-func newWorld(seq bool) *world {
-	w := &world{d: daemon.New(), byName: map[int]*inst{}, seq: seq, parked: make(chan struct{}, 1),
+func newWorld(seq, useDefault bool) *world {
+	var d api = daemon.New()
+	if useDefault && !defaultUsed {
+		defaultUsed = true
+		d = pkgAPI{}
+	}
+	w := &world{d: d, byName: map[int]*inst{}, seq: seq, parked: make(chan struct{}, 1),
 		release: make(chan struct{}), lateOps: map[int]bool{}}
 	hookWorld.Store(w)
 
@@ -238,12 +275,27 @@ func errKind(err error) string {
 	return "err"
 }
 
-func (w *world) bw(name, order int, kind string) string {
+// parseOrders reads the variadic order argument of a `bw`/`park` op: `-` = none given, `a,b` = several.  The order the
+// daemon has to use is the first one, 0 when none is given (computed here independently of the daemon).
+func parseOrders(tok string) (args []int, eff int) {
+	if tok == "-" {
+		return nil, 0
+	}
+	for _, p := range strings.Split(tok, ",") {
+		n, _ := strconv.Atoi(p)
+		args = append(args, n)
+	}
+
+	return args, args[0]
+}
+
+func (w *world) bw(name int, orderTok string, kind string) string {
+	args, order := parseOrders(orderTok)
 	in := w.newInst(name, order, kind)
 	w.log(fmt.Sprintf("bwcall %d %d %d", in.id, name, order))
 	var err error
 	res := ""
-	if p := hx.Safely(func() { err = w.d.BackgroundWorker(strconv.Itoa(name), w.handler(in), order) }); p != "" {
+	if p := hx.Safely(func() { err = w.d.BackgroundWorker(strconv.Itoa(name), w.handler(in), args...) }); p != "" {
 		res = "panic"
 	} else {
 		res = errKind(err)
@@ -470,7 +522,7 @@ func (w *world) exec(r *rec, op string) string {
 	ans := "ok"
 	switch f[0] {
 	case "bw":
-		ans = w.bw(atoi(1), atoi(2), f[3])
+		ans = w.bw(atoi(1), f[2], f[3])
 	case "start":
 		ans = w.guarded("Start", func() { w.d.Start() })
 	case "fin", "kick":
@@ -535,7 +587,7 @@ func (w *world) exec(r *rec, op string) string {
 		}
 	case "park":
 		hookArmed.Store(1)
-		name, order, kind := atoi(1), atoi(2), f[3]
+		name, order, kind := atoi(1), f[2], f[3]
 		w.parkWg.Add(1)
 		w.spawn(func() { defer w.parkWg.Done(); w.bw(name, order, kind) })
 		select {
@@ -684,8 +736,12 @@ func (w *world) finishCase() []string {
 func runCase(script []string) *caseResult {
 	r := &rec{res: &caseResult{Script: script, Counts: map[string]int{}}}
 	seq := len(script) > 0 && script[0] == "mode seq"
-	w := newWorld(seq)
-	r.Line(map[bool]string{true: "mode seq", false: "mode conc"}[seq], "ok")
+	useDefault := len(script) > 0 && script[0] == "mode default"
+	w := newWorld(seq, useDefault)
+	if _, ok := w.d.(pkgAPI); ok {
+		r.Count("daemon:package-level-default")
+	}
+	r.Line(map[bool]string{true: "mode seq", false: map[bool]string{true: "mode default", false: "mode conc"}[useDefault]}[seq], "ok")
 	for _, op := range script {
 		if strings.HasPrefix(op, "mode ") {
 			continue
@@ -695,6 +751,16 @@ func runCase(script []string) *caseResult {
 		}
 		ans := w.exec(r, op)
 		r.Count("op:" + strings.Join(strings.Fields(op)[:min(2, len(strings.Fields(op)))], "-"))
+		if f := strings.Fields(strings.TrimPrefix(op, "go ")); len(f) == 4 && (f[0] == "bw" || f[0] == "park") {
+			switch {
+			case f[2] == "-":
+				r.Count("bw-order-args:none")
+			case strings.Contains(f[2], ","):
+				r.Count("bw-order-args:two")
+			default:
+				r.Count("bw-order-args:one")
+			}
+		}
 		if seq {
 			r.Line("do "+op, ans)
 			r.Count("seq-ans:" + strings.SplitN(ans, ":", 2)[0])
